@@ -56,6 +56,17 @@ def run(ctx):
     ctx.check("C19.R1", "I/O and JSON errors are mapped to SchemaRepositoryError", ok, ld.where(), f"load handlers: {sorted(caught)}", "a missing or malformed file must surface as SchemaRepositoryError (which the loader turns into the UnknownType naming the missing type)")
     ok = any(isinstance(n, ast.Return) and norm(n.value) == "json.load(schema_file)" for n in walk_local(ld.node)) and not any(isinstance(n, (ast.FunctionDef,)) and n.decorator_list for n in [ld.node])
     ctx.check("C19.R1", "each load reads and parses the file afresh (no decorator on load)", ok, ld.where(), "FlatDictRepository.load", "a cached raw schema is later edited in place by the injection step: the second load of the same type sees already-inlined dependencies")
+    # the repository of load_schema is the directory part of the path as it was given: following symbolic links first
+    # looks for the other types next to the link's target
+    lsf = p.func("_schema_py:load_schema")
+    calls_ = [n for n in walk_local(lsf.node) if isinstance(n, ast.Call)]
+    if not any("FlatDictRepository" in norm(c.func) for c in calls_):
+        ctx.unrecognised("C19.R1", "load_schema: default repository", lsf.where(), "no FlatDictRepository(..) construction found")
+    for c in calls_:
+        nm = c.func.attr if isinstance(c.func, ast.Attribute) else (c.func.id if isinstance(c.func, ast.Name) else "")
+        if nm in ("resolve", "realpath", "readlink"):
+            ctx.violation("C19.R1", "load_schema: the directory searched is the directory part of the given path", lsf.where(c), f"load_schema: {norm(c)[:80]}", "symbolic links are followed before the directory is taken: with a schema file that is a link into another directory, the types it refers to are looked up in the wrong place", positive=True)
+    ctx.check("C19.R1", "load_schema: the directory searched is the directory part of the given path", True, lsf.where())
     pw = retry_function(p)
     outer = [n for n in walk_local(pw.node) if isinstance(n, ast.Try) and any("UnknownType" in nm for h in n.handlers for nm in handler_names(h))]
     ok = False
